@@ -4,6 +4,7 @@ import common
 from props import C05 as _c05
 
 LEAN_MODULES = ['OpusProps.C02', 'OpusProps.EndToEnd']   # EndToEnd: composition with the C06 parser, C07 pad/unpad and the C01 decoder skeleton
+EXTENSIONS = ['C02wf']   # extension slices merged into this property's check (tools/EXT_BRIEF.md)
 GEN = ['EncTables']
 SOURCES = _c05.SOURCES + ['src/opus_decoder.c', 'celt/celt_decoder.c', 'silk/dec_API.c', 'celt/entdec.c',
                            'src/opus_multistream_decoder.c', 'src/opus_projection_decoder.c']
